@@ -195,6 +195,8 @@ func (x *Exec) sortOf(t types.Type) string {
 			return "Int"
 		case "time.Time":
 			return x.d.Uninterp("Time")
+		case "time.Timer":
+			return x.d.Uninterp("Timer")
 		case "math/rand.Rand":
 			return x.d.Uninterp("Rand")
 		}
